@@ -196,6 +196,40 @@ def run(m: Model, r: Report, tier: str) -> None:
             f"{f3.qualname}#sub-function-value",
             f"the looked-up sub-function is `{ast.unparse(sf[0].value) if sf else None}`; it must be byte 1 of the PDU without the suppress bit for parsed "
             "and unparsable requests alike (a malformed request with bit 7 set otherwise gets 0x12 instead of 0x13)", loc=f3.loc)
+    # every session of the model is examined: the loop is only left early once the sub-function was found in the active session
+    f3loops = [n for n in walk_no_nested(f3.node) if isinstance(n, ast.For)]
+    if len(f3loops) != 1:
+        raise AnalysisError(f"{f3.qualname}: loop over the sessions not found")
+    flags_after = {ast.unparse(n.test.operand) for n in walk_no_nested(f3.node) if isinstance(n, ast.If) and isinstance(n.test, ast.UnaryOp) and isinstance(n.test.op, ast.Not)
+                   and isinstance(n.test.operand, ast.Name) and n.lineno > f3loops[0].lineno}
+    bad_breaks = []
+    for blk in ast.walk(f3loops[0]):
+        body_lists = [getattr(blk, "body", None), getattr(blk, "orelse", None)]
+        for bl in body_lists:
+            if not isinstance(bl, list):
+                continue
+            for i_, st in enumerate(bl):
+                if isinstance(st, ast.Break):
+                    prev = bl[i_ - 1] if i_ > 0 else None
+                    ok_b = isinstance(prev, ast.Assign) and isinstance(prev.targets[0], ast.Name) and prev.targets[0].id in flags_after \
+                        and isinstance(prev.value, ast.Constant) and prev.value.value is True
+                    if not ok_b:
+                        bad_breaks.append(st.lineno)
+    r.check(not bad_breaks, "R3", f"{f3.qualname}#examines-every-session",
+            f"the session loop is left early at line(s) {bad_breaks} without the sub-function having been found in the active session: later sessions are not "
+            "examined and 0x12 is answered where 0x7E (or no error) is due", loc=f3.loc)
+    # the per-session lookup of the service is guarded by the matching membership test (sessions not offering the service are skipped)
+    looks = [n for n in ast.walk(f3loops[0]) if isinstance(n, ast.Subscript) and isinstance(n.value, ast.Subscript) and ast.unparse(n.value.value) == "self.supported_services"
+             and isinstance(n.ctx, ast.Load)]
+    if not looks:
+        raise AnalysisError(f"{f3.qualname}: lookup of the service in a session's table not found")
+    for lk in looks:
+        key_t, cont_t = ast.unparse(lk.slice), ast.unparse(lk.value)
+        guards = [st for st in f3loops[0].body if isinstance(st, ast.If) and st.lineno < lk.lineno and isinstance(st.test, ast.Compare) and len(st.test.ops) == 1
+                  and ast.unparse(st.test.left) == key_t and ast.unparse(st.test.comparators[0]) == cont_t]
+        r.check(len(guards) == 1 and isinstance(guards[0].test.ops[0], ast.NotIn) and len(guards[0].body) == 1 and isinstance(guards[0].body[0], ast.Continue), "R3",
+                f"{f3.qualname}#lookup-guard", f"`{cont_t}[{key_t}]` must be preceded by `if {key_t} not in {cont_t}: continue` "
+                f"(found: {[ast.unparse(g_.test) + ' -> ' + type(g_.body[0]).__name__ for g_ in guards]})", loc=f3.loc)
     # flags by role: set True in the branch `== self.state.session` (active) / after it (other)
     r.check(has_row(t3, ["not _L", "_L"], [], "subFunctionNotSupportedInActiveSession") and
             has_row(t3, ["not _L"], ["_L"], "subFunctionNotSupported") and
@@ -208,12 +242,18 @@ def run(m: Model, r: Report, tier: str) -> None:
     f5 = m.require_function(f"{SRV}.UDSServer.default_response_if_none")
     t5 = decision_table(f5)
     r.check([o for _, o, _ in t5] == ["generalReject"], "R3", f"{f5.qualname}#table", f"{t5}", loc=f5.loc)
-    for q, want in ((f"{SRV}.UDSServer.default_response_if_session_change", "service.DiagnosticSessionControlResponse(request.diagnostic_session_type)"),
-                    (f"{SRV}.UDSServer.default_response_if_tester_present", "service.TesterPresentResponse()"),
-                    (f"{SRV}.UDSServer.default_response_if_session_read", "service.ReadDataByIdentifierResponse(request.data_identifier, to_bytes(self.state.session, 1))")):
+    for q, want, need in ((f"{SRV}.UDSServer.default_response_if_session_change", "service.DiagnosticSessionControlResponse(request.diagnostic_session_type)",
+                           ["isinstance(request, service.DiagnosticSessionControlRequest)"]),
+                          (f"{SRV}.UDSServer.default_response_if_tester_present", "service.TesterPresentResponse()", ["isinstance(request, service.TesterPresentRequest)"]),
+                          (f"{SRV}.UDSServer.default_response_if_session_read", "service.ReadDataByIdentifierResponse(request.data_identifier, to_bytes(self.state.session, 1))",
+                           ["isinstance(request, service.ReadDataByIdentifierRequest)", "request.data_identifier == DataIdentifier.ActiveDiagnosticSessionDataIdentifier"])):
         fx = m.require_function(q)
-        outs = {full for _, o, full in decision_table(fx)}
+        tx = decision_table(fx)
+        outs = {full for _, o, full in tx}
         r.check(want in outs and outs <= {want, "None"}, "R3", f"{q}#table", f"outcomes {sorted(outs)}", loc=fx.loc)
+        rows_pos = [({c for c, v in conds if v}, {c for c, v in conds if not v}) for conds, o, full in tx if full == want]
+        r.check(bool(rows_pos) and all(tset == set(need) and not fset for tset, fset in rows_pos), "R3", f"{q}#condition",
+                f"the positive default answer is given under {[(sorted(t), sorted(f_)) for t, f_ in rows_pos]}; expected exactly when {need}", loc=fx.loc)
 
     # ---------------------------------------------------------------- R4
     fs = m.require_function(f"{SRV}.UDSServer.default_response_if_suppress")
